@@ -495,7 +495,7 @@ func TestVerifC11Concurrent(t *testing.T) {
 	}
 	m, err := c11Load([][]byte{[]byte(strings.Join(entries, "\n") + "\n")})
 	if err != nil {
-		rep.Violate("C11:concurrent:load-error", err.Error(), nil)
+		rep.Violate(c11P+":concurrent:load-error", err.Error(), nil)
 		return
 	}
 	want := make([]bool, len(names))
@@ -533,7 +533,7 @@ func TestVerifC11Concurrent(t *testing.T) {
 		rep.Eval(fmt.Sprintf("concurrent|%d|%v", i, want[i]))
 	}
 	for b := range bad {
-		rep.Violate("C11:concurrent:verdict-depends-on-other-calls", "with other Match calls running concurrently: "+b, nil)
+		rep.Violate(c11P+":concurrent:verdict-depends-on-other-calls", "with other Match calls running concurrently: "+b, nil)
 		break
 	}
 }
